@@ -1,15 +1,25 @@
 (* typer.go CollectionPaths.Contains/Split, Split, CollectionPath.OfActor, ValidCollection*, ValidCollectionIRI over
    the wide models of the libraries (Model/UrlU.v: url.Parse / URL.String on bytes >= 0x80 and every escape;
-   Model/Fold.v: strings.EqualFold with Unicode simple folding).  The code is that of Model/CollIri.v; IRIf,
+   Model/Fold.v: strings.EqualFold with Unicode simple folding).  The code is that of Model/CollIri.v, with the name
+   comparison of the repaired tree (sameCollectionName; the pinned comparison is kept as ..._pinned); IRIf,
    AddPath, filepath.Split / Join are string operations and are shared with it.  Definitions only. *)
 From AP.Model Require Import Prelude Bytes Url IriEq Vocab Pred CollIri Utf8 Fold UrlU IriEqU.
 From AP.Gen Require Import TypeLists.
 
-(* CollectionPaths.Contains: strings.EqualFold against every member *)
-Definition contains_u (names : list bytes) (c : bytes) : bool := existsb (fun n => ufold_eqb c n) names.
+(* sameCollectionName (typer.go, as repaired: "fix: a path segment spelled with U+212A KELVIN SIGN or U+017F LONG S
+   was taken for a collection name"): same length in BYTES, then strings.EqualFold.  Against an ASCII name this is
+   ASCII case-insensitivity exactly (Proofs/CollIriUP.name_eqb_ascii) *)
+Definition name_eqb (a b : bytes) : bool := Nat.eqb (length a) (length b) && ufold_eqb a b.
+(* the pinned tree: strings.EqualFold alone (Unicode simple folding: U+212A ~ k, U+017F ~ s) *)
+Definition name_eqb_pinned (a b : bytes) : bool := ufold_eqb a b.
+
+(* CollectionPaths.Contains: the name comparison against every member *)
+Definition contains_with (neq : bytes -> bytes -> bool) (names : list bytes) (c : bytes) : bool := existsb (fun n => neq c n) names.
+Definition contains_u : list bytes -> bytes -> bool := contains_with name_eqb.
+Definition contains_u_pinned : list bytes -> bytes -> bool := contains_with name_eqb_pinned.
 
 (* CollectionPaths.Split; None = the IRI is outside the model (userinfo, IP literal) *)
-Definition coll_split_u (names : list bytes) (i : bytes) : option (bytes * bytes) :=
+Definition coll_split_with (cont : list bytes -> bytes -> bool) (names : list bytes) (i : bytes) : option (bytes * bytes) :=
   match (match i with [] => UErr | _ => url_parse_u i end) with
   | UOut => None
   | UUrl u =>
@@ -17,39 +27,55 @@ Definition coll_split_u (names : list bytes) (i : bytes) : option (bytes * bytes
       match dir with
       | [] => Some (i, [])
       | _ => Some (url_string_u (with_path_u u (trim_right_byte slash dir)),
-                   if contains_u names file then file else [])
+                   if cont names file then file else [])
       end
   | UErr =>
       let '(dir, file) := path_split i in
       match dir with
       | [] => Some (i, [])
-      | _ => if contains_u names file then Some (trim_right_byte slash dir, file) else Some (i, [])
+      | _ => if cont names file then Some (trim_right_byte slash dir, file) else Some (i, [])
       end
   end.
 
+Definition coll_split_u : list bytes -> bytes -> option (bytes * bytes) := coll_split_with contains_u.
+Definition coll_split_u_pinned : list bytes -> bytes -> option (bytes * bytes) := coll_split_with contains_u_pinned.
+
 Definition split_u (i : bytes) : option (bytes * bytes) := coll_split_u tl_ActivityPubCollections i.
+Definition split_u_pinned (i : bytes) : option (bytes * bytes) := coll_split_u_pinned tl_ActivityPubCollections i.
 
 (* CollectionPath.OfActor *)
-Definition of_actor_u (t i : bytes) : outcome bytes :=
+Definition of_actor_with (neq : bytes -> bytes -> bool) (t i : bytes) : outcome bytes :=
   let '(dir, file) := path_split i in
-  if ufold_eqb file t then Ok (trim_right_byte slash dir) else Err.
+  if neq file t then Ok (trim_right_byte slash dir) else Err.
+Definition of_actor_u : bytes -> bytes -> outcome bytes := of_actor_with name_eqb.
+Definition of_actor_u_pinned : bytes -> bytes -> outcome bytes := of_actor_with name_eqb_pinned.
 
-Definition get_valid_activity_collection_u (t : bytes) : bytes :=
-  if contains_u tl_validActivityCollection t then t else [].
-Definition get_valid_object_collection_u (t : bytes) : bytes :=
-  match find (fun n => ufold_eqb t n) valid_object_collections with Some n => n | None => [] end.
-Definition get_valid_collection_u (t : bytes) : bytes :=
-  match get_valid_activity_collection_u t with
-  | [] => get_valid_object_collection_u t
-  | x => x
-  end.
+Section Valid.
+  Variable neq : bytes -> bytes -> bool.
+  Definition get_valid_activity_collection_w (t : bytes) : bytes :=
+    if contains_with neq tl_validActivityCollection t then t else [].
+  Definition get_valid_object_collection_w (t : bytes) : bytes :=
+    match find (fun n => neq t n) valid_object_collections with Some n => n | None => [] end.
+  Definition get_valid_collection_w (t : bytes) : bytes :=
+    match get_valid_activity_collection_w t with
+    | [] => get_valid_object_collection_w t
+    | x => x
+    end.
+  Definition valid_collection_w (t : bytes) : bool := nonempty (get_valid_collection_w t).
+  (* ValidCollectionIRI *)
+  Definition valid_collection_iri_w (i : bytes) : option bool :=
+    match coll_split_with (contains_with neq) tl_ActivityPubCollections i with
+    | Some (_, t) => Some (valid_collection_w t)
+    | None => None
+    end.
+End Valid.
+
+Definition get_valid_activity_collection_u : bytes -> bytes := get_valid_activity_collection_w name_eqb.
+Definition get_valid_object_collection_u : bytes -> bytes := get_valid_object_collection_w name_eqb.
+Definition get_valid_collection_u : bytes -> bytes := get_valid_collection_w name_eqb.
 Definition valid_activity_collection_u (t : bytes) : bool := nonempty (get_valid_activity_collection_u t).
 Definition valid_object_collection_u (t : bytes) : bool := nonempty (get_valid_object_collection_u t).
-Definition valid_collection_u (t : bytes) : bool := nonempty (get_valid_collection_u t).
-
-(* ValidCollectionIRI *)
-Definition valid_collection_iri_u (i : bytes) : option bool :=
-  match split_u i with
-  | Some (_, t) => Some (valid_collection_u t)
-  | None => None
-  end.
+Definition valid_collection_u : bytes -> bool := valid_collection_w name_eqb.
+Definition valid_collection_iri_u : bytes -> option bool := valid_collection_iri_w name_eqb.
+(* the pinned tree *)
+Definition valid_collection_iri_u_pinned : bytes -> option bool := valid_collection_iri_w name_eqb_pinned.
